@@ -51,6 +51,9 @@ func (q *qres) fate() string {
 // byChannel groups the u values by label, in arrival order.
 func (q *qres) byChannel() map[string][]int {
 	out := map[string][]int{}
+	for _, ch := range q.EOC {
+		out[ch] = []int{}
+	}
 	for i, v := range q.Vals {
 		out[q.Labels[i]] = append(out[q.Labels[i]], uidOf(v))
 	}
@@ -430,7 +433,14 @@ var reHigh = regexp.MustCompile(`<<"HIGHWATER", (\d+), (\d+)>>`)
 // is validated again.
 func validateTraces(c *core.Ctx, traces []*trace) error {
 	sort.Slice(traces, func(i, j int) bool { return traces[i].ID < traces[j].ID })
-	const chunk = 2500
+	// a few JVMs side by side: TLC explains about two states per event, one BFS level each
+	chunk := (len(traces) + 2) / 3
+	if chunk < 120 {
+		chunk = 120
+	}
+	if chunk > 1500 {
+		chunk = 1500
+	}
 	var wg sync.WaitGroup
 	var mu sync.Mutex
 	var firstErr error
